@@ -93,6 +93,12 @@ def recordedOK (recs : List (Kind × RecordHow)) (k : Kind) : Bool :=
   | some (.guarded atoms) => atoms.contains .tmpVar && !atoms.contains .unanalysable
   | _ => false
 
+/-- A stage that looks at a list-typed field (statement lists, `targets`, `elts`, `args`, `ifs`, …) consumes the whole
+    list somewhere — not just one element by constant index or its truth value (`gen.ifs[0]` under `if gen.ifs:` would
+    lower the first `if` guard of a comprehension and drop the others). -/
+def listReadOK (rs : List (Stage × Kind × Field × ListRead)) (r : Stage × Kind × Field × ListRead) : Bool :=
+  rs.any fun q => q.1 = r.1 ∧ q.2.1 = r.2.1 ∧ q.2.2.1 = r.2.2.1 ∧ q.2.2.2 = .whole
+
 /-- executable form of `Covered` -/
 def coveredB (T : Tables) (k : Kind) (f : Field) : Bool :=
   decide (disp T fuel k f ≠ .ignored) ||
